@@ -137,6 +137,7 @@ def numeric_kinds(rng, keys, kind):
 
 
 def run_shard(shard, ctx):
+    threaded_rounds(ctx, 12 if ctx.tier == 'quick' else 60)
     algs = {}
     units = []
     for unit in shard['units']:
@@ -210,3 +211,80 @@ def run_shard(shard, ctx):
                                   keys_in=[list(kx), list(ky)], keys_out=list(r2.keys()),
                                   got=show_elem({k: got.get(k) for k in bad[:4]}),
                                   expected=show_elem({k: exp.get(k, 0) for k in bad[:4]}))
+
+
+def threaded_rounds(ctx, nrounds):
+    """The products of C02 taken by several threads at once on a fresh algebra: one key pair P already used, a new pair Q requested by
+    all threads at the same moment (and P again by some).  Every thread's result must be the bilinear extension for ITS operands."""
+    import sys
+    import threading
+    from kvm.iso import Iso
+    rng = ctx.rng
+    old = sys.getswitchinterval()
+    sys.setswitchinterval(1e-6)
+    try:
+        for rnd in range(nrounds):
+            if ctx.out_of_time():
+                return
+            cfg = rng.choice([{'p': 2, 'q': 0, 'r': 0}, {'p': 3, 'q': 0, 'r': 0}, {'p': 2, 'q': 0, 'r': 1}, {'p': 1, 'q': 1, 'r': 1}, {'p': 2, 'q': 2, 'r': 0}])
+            alg = gen.make_or_skip(ctx, cfg)
+            if alg is None:
+                continue
+            iso = Iso(alg)
+            canon = tuple(alg.canon2bin.values())
+            size = rng.randint(1, 3)
+            pats = {}
+            for nm in 'PQ':
+                pats[nm] = (tuple(rng.sample(canon, min(len(canon), size))), tuple(rng.sample(canon, min(len(canon), size))))
+            if pats['P'] == pats['Q']:
+                continue
+            cid = [gen.cfg_str(cfg), 'threaded', [list(k) for k in pats['P']], [list(k) for k in pats['Q']], rnd]
+            if not ctx.want(cid):
+                continue
+
+            def operands(which):
+                kx, ky = pats[which]
+                x = ops.value_mv(alg, kx, {k: Fr(rng.randint(1, 9)) for k in kx})
+                y = ops.value_mv(alg, ky, {k: Fr(rng.randint(1, 9)) for k in ky})
+                return x, y
+            xp, yp = operands('P')
+            _ = xp * yp                                    # P is in the cache and was the last entry used
+            T = 4
+            jobs = [('Q',) + operands('Q') for _ in range(T - 1)] + [('P',) + operands('P')]
+            rng.shuffle(jobs)
+            barrier = threading.Barrier(T)
+            results = [None] * T
+
+            def work(i):
+                which, x, y = jobs[i]
+                try:
+                    barrier.wait(timeout=30)
+                    r = x * y
+                    results[i] = ('ok', r)
+                except Exception as e:        # noqa
+                    results[i] = ('exc', e)
+            threads = [threading.Thread(target=work, args=(i,)) for i in range(T)]
+            for t in threads:
+                t.start()
+            for t in threads:
+                t.join(120)
+            if any(t.is_alive() for t in threads):
+                ctx.count('threaded_rounds_inconclusive')
+                continue
+            ctx.count('threaded_cold_start_rounds')
+            ctx.case(cid)
+            for i, (which, x, y) in enumerate(jobs):
+                st, r = results[i]
+                exp = iso.ref.gp(iso.mv_to_ref(x), iso.mv_to_ref(y))
+                if st == 'exc':
+                    ctx.violation('a product raised in a thread although the same product is defined', cid + [i], config=cfg, pattern=which,
+                                  keys=[list(k) for k in pats[which]], error=f'{type(r).__name__}: {str(r)[:160]}')
+                    continue
+                got = iso.to_ref(zip(r.keys(), r.values()))
+                bad = elem_diff(got, exp)
+                if bad or len(r.keys()) != len(r.values()):
+                    ctx.violation('product taken in a thread is not the bilinear extension for its operands', cid + [i], config=cfg, pattern=which,
+                                  keys=[list(k) for k in pats[which]], other_pattern=[list(k) for k in pats['P' if which == 'Q' else 'Q']],
+                                  got=show_elem({k: got.get(k) for k in bad[:4]}), expected=show_elem({k: exp.get(k, 0) for k in bad[:4]}))
+    finally:
+        sys.setswitchinterval(old)
